@@ -3,6 +3,7 @@ import Mathlib.Algebra.Field.Basic
 import Mathlib.Data.Nat.Cast.Defs
 import BlugeProofs.C16.Algebra
 import BlugeProofs.C16.Decode
+import Bluge.C16.Code
 /-! # C16 — aggregations are exact over the whole match set
 
 Property theorems only (helper lemmas: `BlugeProofs/C16/Lemmas.lean`). The model is `Bluge/Agg.lean`.
@@ -12,10 +13,12 @@ Property theorems only (helper lemmas: `BlugeProofs/C16/Lemmas.lean`). The model
 * per calculator: the fold equals the mathematical definition over the matched values (unbounded match lists,
   arbitrary carrier with the stated algebraic structure, arbitrary sketch type, arbitrary nested calculator).
 * loading: the values a calculator sees are the document's own values **iff every field is listed exactly once**
-  in `neededFields`; in the pinned tree that fails in two ways (`agg_exact_fails_without_dedup`, `agg_exact_fails_without_range_fields`), so the end-to-end statement
-  `AggExact` is proved to hold exactly for the repaired code facts (`agg_exact_iff`, `c16_status`) and, for
-  the pinned tree, under the decidable hypothesis `LoadedOnce` (`agg_exact_partial`) which the correspondence run
-  evaluates on every request. -/
+  in `neededFields`. Two facts about the code decide that (`CodeFacts`: is the field list de-duplicated; do the
+  range aggregations report their nested fields); they are REGENERATED from /repo on every run
+  (`go/extract/c16.go` → `BlugeGen.C16` → `Bluge.Agg.codeFacts`). `agg_exact_iff`: the end-to-end statement
+  `AggExact` holds exactly when both are true (concrete failing witnesses otherwise:
+  `agg_exact_fails_without_dedup`, `agg_exact_fails_without_range_fields` — the tree as first pinned, before the
+  repairs 3f12f0c and 527db82); `agg_exact`: it holds for the tree under check. -/
 namespace Bluge.C16
 open Bluge.Agg
 
@@ -601,17 +604,29 @@ theorem agg_exact_iff (cf : CodeFacts) : AggExact Int cf ↔ cf = fixedFacts := 
 /-- **C16 for the code as it is** (`Bluge.Agg.codeFacts`) -/
 theorem c16_status : AggExact Int codeFacts ↔ codeFacts = fixedFacts := agg_exact_iff codeFacts
 
-/-- the pinned tree: the property as stated does NOT hold (this line stops compiling when `codeFacts` is
-changed after a repair: replace it by `example : AggExact Int codeFacts := c16_status.mpr (by decide)`) -/
-example : ¬ AggExact Int codeFacts := fun h => absurd (c16_status.mp h) (by decide)
+/-- **C16 holds for the tree under check**: its two facts, regenerated from the source by `go/extract/c16.go`, are
+both true. (Reverting either repair makes the extractor emit `false`, and this `decide` — hence the build — fails,
+while the correspondence run reproduces the failing requests on the real code.) -/
+theorem agg_exact : AggExact Int codeFacts := c16_status.mpr (by decide)
+
+/-- … over every carrier, not only `Int` -/
+theorem agg_exact_any {α : Type} [Add α] [Mul α] [Div α] [OfNat α 0] [OfNat α 1] [LT α] [LE α] [DecidableLT α]
+    [DecidableLE α] : AggExact α codeFacts := by
+  have h : codeFacts = fixedFacts := by decide
+  rw [h]; exact agg_exact_fixed
+
+/-- so `LoadedOnce` holds for every request of the tree under check -/
+theorem loadedOnce_code {α : Type} (sf : List Field) (aggs : List (Agg α)) : LoadedOnce codeFacts sf aggs := by
+  have h : codeFacts = fixedFacts := by decide
+  rw [h]; exact loadedOnce_fixed sf aggs
 
 /-! ### non-vacuity of the hypotheses -/
 
-/-- `LoadedOnce` is decidable and holds for ordinary requests of the pinned tree … -/
-example : LoadedOnce codeFacts ["k"] [(Agg.terms "c" 3 [.sum "q"] : Agg Int), .metric (.min "p")] := by decide
+/-- `LoadedOnce` is decidable; before the repairs it held for ordinary requests … -/
+example : LoadedOnce pinnedFacts ["k"] [(Agg.terms "c" 3 [.sum "q"] : Agg Int), .metric (.min "p")] := by decide
 /-- … and fails exactly in the reported situations -/
-example : ¬ LoadedOnce codeFacts ["p"] [(Agg.metric (.sum "p") : Agg Int)] := by decide
-example : ¬ LoadedOnce codeFacts [] [(Agg.ranges "p" [(0, 10)] [.sum "q"] : Agg Int)] := by decide
+example : ¬ LoadedOnce pinnedFacts ["p"] [(Agg.metric (.sum "p") : Agg Int)] := by decide
+example : ¬ LoadedOnce pinnedFacts [] [(Agg.ranges "p" [(0, 10)] [.sum "q"] : Agg Int)] := by decide
 /-- the nested bucket's count is the number of matches it consumed (hypothesis `hcnt` of the terms / range theorems) -/
 example {α : Type} [DivisionRing α] [LinearOrder α] (subs : List (Metric α)) (xs : List (DocVals α))
     (env : Env α Unit Unit) (hto : ∀ n : Nat, env.toNat (n : α) = n) :
